@@ -156,3 +156,64 @@ def gen_3(ctx, rep):
     a = cls.methods.get('add_arc')
     ok = a is not None and any(isinstance(n, ast.Assert) and 'not in self.arcs' in norm(n.test) for n in walk_own(a.node))
     rep.ob('GEN-3', GEN, 'DFAState.add_arc', 'assert label not in self.arcs', ok, 'arcs can be silently overwritten')
+
+
+# ---------------------------------------------------------------------------
+# GEN-6: no memoised depth-first computation publishes an entry before it is complete
+# ---------------------------------------------------------------------------
+def gen_6(ctx, rep):
+    rep.rule('GEN-6', 'a directly recursive function of the generator never hands out, on its early exit, a value it looked '
+                      'up in a container that it itself fills *before* its recursive calls return: NFA / rule graphs have '
+                      'cycles (X*, X+, recursion between rules), an entry published early is read back incomplete on a cycle '
+                      '(the left-recursion sentinel, whose read raises, is the reasoned exception)')
+    mod = ctx.prog.mod(GEN)
+    n_rec = 0
+    for f in mod.funcs.values():
+        calls = [n for n in walk_own(f.node) if isinstance(n, ast.Call)
+                 and ((isinstance(n.func, ast.Name) and n.func.id == f.name)
+                      or (isinstance(n.func, ast.Attribute) and n.func.attr == f.name and f.cls is not None))]
+        if not calls:
+            continue
+        n_rec += 1
+        first_call = min(c.lineno for c in calls)
+        # containers stored to before the first recursive call:  M[k] = v,  M.setdefault(k, v),  chained M[k] = x = v
+        early_stores = {}
+        for n in walk_own(f.node):
+            if getattr(n, 'lineno', 10 ** 9) > first_call:
+                continue
+            if isinstance(n, ast.Assign):
+                for t in n.targets:
+                    if isinstance(t, ast.Subscript) and isinstance(t.value, ast.Name):
+                        early_stores.setdefault(t.value.id, n)
+            if isinstance(n, ast.Call) and isinstance(n.func, ast.Attribute) and n.func.attr == 'setdefault' \
+                    and isinstance(n.func.value, ast.Name):
+                early_stores.setdefault(n.func.value.id, n)
+        bad = None
+        for n in walk_own(f.node):
+            if not (isinstance(n, ast.Return) and n.value is not None and n.lineno <= first_call):
+                continue
+            # the returned expression reads one of those containers (directly or through a local assigned from it)
+            exprs = [n.value]
+            if isinstance(n.value, ast.Name):
+                exprs = [a.value for a in walk_own(f.node) if isinstance(a, ast.Assign)
+                         and any(isinstance(t, ast.Name) and t.id == n.value.id for t in a.targets) and a.lineno <= n.lineno]
+            for e in exprs:
+                for x in ast.walk(e):
+                    if isinstance(x, ast.Subscript) and isinstance(x.ctx, ast.Load) and isinstance(x.value, ast.Name) \
+                            and x.value.id in early_stores:
+                        bad = (x.value.id, n, early_stores[x.value.id])
+                    if isinstance(x, ast.Call) and isinstance(x.func, ast.Attribute) and x.func.attr == 'get' \
+                            and isinstance(x.func.value, ast.Name) and x.func.value.id in early_stores:
+                        bad = (x.value.id if hasattr(x, 'value') else x.func.value.id, n, early_stores[x.func.value.id])
+        if bad:
+            # the sentinel pattern: the early store is the constant None and reading it back raises
+            store = bad[2]
+            sentinel = isinstance(store, ast.Assign) and isinstance(store.value, ast.Constant) and store.value.value is None
+            if sentinel:
+                rep.ob('GEN-6', GEN, f.qual, 'recursive %s: sentinel %s' % (f.name, norm(store)), True,
+                       reason='the early entry is the None sentinel (GEN-2 shows that reading it raises)')
+                continue
+        rep.ob('GEN-6', GEN, f.qual, 'recursive %s' % f.name, bad is None,
+               'entry of %s is stored (%s) before the recursive calls return and handed out by `%s`: on a cycle the '
+               'incomplete entry is returned' % (bad[0], norm(bad[2]), norm(bad[1])) if bad else '')
+    rep.minimum('GEN-6', 2, 'addclosure and _calculate_first_plans')
